@@ -57,6 +57,10 @@ class MergeAsof(Merge):
             "direction": self.direction,
         }
 
+    def _filter_passthrough_available(self, parent, dependents):
+        # The rule of ``Merge`` decides by ``how``, which an asof join does not have
+        return False
+
     @functools.cached_property
     def _left(self):
         left = self.left
@@ -176,6 +180,11 @@ class MergeAsofIndexed(MergeAsof):
 
     def _divisions(self):
         return self.left.divisions
+
+    def _simplify_up(self, parent, dependents):
+        # Lowered form: the rewrite rules of ``Merge`` (written in terms of
+        # ``how`` / ``left_on`` / ``right_on``) do not apply any more
+        return
 
     @functools.cached_property
     def _kwargs(self):
